@@ -245,6 +245,13 @@ class Manager(ServerBase):
             # If server has already shutdown or crashed, just exit
             pass
 
+    def handle_disconnect(self, conn: Connection) -> None:
+        """Remove `conn`; a manager that lost its boss shuts down."""
+        lost_boss = conn is self.upstream
+        super().handle_disconnect(conn)
+        if lost_boss and self.running:
+            self.handle_shutdown()
+
     def send_up_or_schedule_tasks(self, tasks: Sequence[RuntimeTask]) -> None:
         """Either send the tasks upstream or schedule them downstream."""
         num_idle = self.num_idle_workers
